@@ -5,6 +5,6 @@ EXTENDS DamageTrace
 TBaseAgain == /\ l <= NRec /\ Rec[l].ev = "base" /\ "skip" \in DOMAIN Rec[l]
               /\ base' = l /\ l' = l + 1 /\ UNCHANGED allvars
 TBaseFirst == l <= NRec /\ "skip" \notin DOMAIN Rec[l] /\ TBase
-CNext == TBaseFirst \/ TBaseAgain \/ TScan \/ TChkBase \/ TDamaged \/ TDamagedKnown
+CNext == TBaseFirst \/ TBaseAgain \/ TScan \/ TChkBase \/ TDamaged \/ TDamagedKnown \/ TDamagedKnownDecoy
 CSpec == TInit /\ [][CNext]_tvars
 =============================================================================
